@@ -136,6 +136,13 @@ class RespError(Exception):
         return (RespError, (self.resp,))
 
 
+class TwoArgInit(Exception):
+    """Pickles (by class + args) but cannot be rebuilt: the constructor needs two arguments, args holds one."""
+
+    def __init__(self, a, b):
+        super().__init__(f'{a}-{b}')
+
+
 class Resp:
     def __init__(self, status, reason):
         self.status, self.reason = status, reason
@@ -150,7 +157,7 @@ EXC_TABLE = {
     'KwOnlyExc': KwOnlyExc, 'AssertionError': AssertionError, 'KeyboardInterrupt': KeyboardInterrupt, 'ZeroDivisionError': ZeroDivisionError,
     'UnicodeDecodeError': UnicodeDecodeError, 'FileNotFoundError': FileNotFoundError, 'RuntimeError': RuntimeError, 'StopIteration': StopIteration,
     'Reject': Reject, 'LookupError': LookupError, 'TimeoutError': TimeoutError, 'ConnectionResetError': ConnectionResetError,
-    'StatusError': StatusError, 'CodeError': CodeError, 'RespError': _make_resp_error,
+    'StatusError': StatusError, 'CodeError': CodeError, 'RespError': _make_resp_error, 'TwoArgInit': TwoArgInit,
 }
 
 
